@@ -165,8 +165,13 @@ func (m *MdatBox) Info(w io.Writer, specificBoxLevels, indent, indentStep string
 
 // HeaderSize - 8 or 16 (bytes) depending o whether largeSize is used
 func (m *MdatBox) HeaderSize() uint64 {
+	dataSize := m.DataLength()
+	if m.lazyDataSize > 0 {
+		dataSize = m.lazyDataSize
+	}
 	hSize := boxHeaderSize
-	if m.LargeSize {
+	if m.LargeSize || dataSize > maxNormalPayloadSize {
+		// Same rule as in Size(): a payload that does not fit the 32-bit size field gets the 64-bit one
 		hSize += largeSizeLen
 	}
 	return uint64(hSize)
